@@ -213,6 +213,30 @@ Definition restore_to (c : cfg) (d : nat) s : outcome * st :=
 
 Definition enqueue j s := set_jq (jq s ++ [j]) s.
 
+(* generator entered by next()/return(): how control leaves it *)
+(* yield / ret, popTryFrame, popCtx, the native call's popCtx *)
+Definition leave_gen (s : st) : st := pop_ctx (pop_ctx (pop_frame (pop_ctx s))).
+(* return() on a generator suspended inside a try block: native context, enterNext (context, marker, extra
+   context), the saved try frame restored with its finally armed by enterNextFinallyFrame *)
+Definition gen_reenter (s : st) : st :=
+  push_frame (FHandler false false) (push_ctx (push_frame FMarker (push_ctx (push_ctx s)))).
+(* uncatchable: handleThrow at the marker, then the deferred leaveOnPanic (195c9cc, c7e0548) *)
+Definition gen_intr (c : cfg) (o : outcome) (s : st) : outcome * st := (o, pop_ctx (pop_frame (unwind_u c s))).
+(* a catchable exception leaves the generator: handleThrow at the marker; next()/return() panic with it *)
+Definition gen_throw (c : cfg) (dm : nat) (s : st) : outcome * st :=
+  let '(o', s') := restore_to c dm s in
+  match o' with
+  | OThrow => (OThrow, pop_ctx (pop_frame s'))
+  | _ => (o', pop_ctx (pop_frame (unwind_u c s')))
+  end.
+(* after the finally block of the generator body ran (pend: it ran for a pending exception) *)
+Definition gen_after_fin (c : cfg) (dm : nat) (pend : bool) (r : outcome * st) : outcome * st :=
+  match r with
+  | (ONorm, s) => if pend then gen_throw c dm (pop_frame s) else (ONorm, leave_gen (pop_frame s))
+  | (OThrow, s) => gen_throw c dm s
+  | (OIntr t, s) => gen_intr c (OIntr t) s
+  end.
+
 Section Exec.
   Variable c : cfg.
 
@@ -278,44 +302,20 @@ Section Exec.
         let dm := length (ts s1) in
         let s2 := push_frame (FHandler false true) (push_ctx s1) in
         let dh := length (ts s2) in
-        (* yield / ret, popTryFrame, popCtx, the native call's popCtx *)
-        let leave_gen (s : st) := pop_ctx (pop_ctx (pop_frame (pop_ctx s))) in
-        (* a catchable exception leaves the generator: handleThrow at the marker; next()/return() panic with it *)
-        let gen_throw (s : st) : outcome * st :=
-          let '(o', s') := restore_to c dm s in
-          match o' with
-          | OThrow => (OThrow, pop_ctx (pop_frame s'))
-          | _ => (o', pop_ctx (pop_frame (unwind_u c s')))
-          end in
-        (* uncatchable: handleThrow at the marker, then the deferred leaveOnPanic *)
-        let gen_intr (o : outcome) (s : st) : outcome * st := (o, pop_ctx (pop_frame (unwind_u c s))) in
         let '(o1, s3) := exec_c pre s2 in
         match o1 with
         | ONorm =>
             (* yield inside the try block: its frame is saved with the generator.  g.return(): same entry, the
                frame is restored and its finally block runs (enterNextFinallyFrame) *)
-            let s4 := leave_gen (pop_frame s3) in
-            let s5 := push_frame (FHandler false false) (push_ctx (push_frame FMarker (push_ctx (push_ctx s4)))) in
-            let '(o2, s6) := exec_c fin s5 in
-            match o2 with
-            | ONorm => (ONorm, leave_gen (pop_frame s6))
-            | OThrow => gen_throw s6
-            | OIntr _ => gen_intr o2 s6
-            end
+            gen_after_fin c dm false (exec_c fin (gen_reenter (leave_gen (pop_frame s3))))
         | OThrow =>
             (* the finally block runs for the exception, then it is rethrown out of next() *)
             let '(o', s4) := restore_to c dh s3 in
             match o' with
-            | OThrow =>
-                let '(o2, s5) := exec_c fin s4 in
-                match o2 with
-                | ONorm => gen_throw (pop_frame s5)
-                | OThrow => gen_throw s5
-                | OIntr _ => gen_intr o2 s5
-                end
-            | _ => gen_intr o' s4
+            | OThrow => gen_after_fin c dm true (exec_c fin s4)
+            | _ => gen_intr c o' s4
             end
-        | OIntr _ => gen_intr o1 s3
+        | OIntr _ => gen_intr c o1 s3
         end
     | IAsync pre post =>
         (* asyncRunner.start: gen.enter() = pushCtx; pushTryFrame(marker); then the function's own frame *)
